@@ -1,5 +1,7 @@
 SPECIFICATION Spec
 CONSTANTS
+  UseStaticCfg = TRUE
+  StaticCfg <- DefaultCfg
   Dev = {"RefundTruncatedDust"}
   Family = "attest"
   MaxLen = 9
